@@ -140,7 +140,12 @@ DELIM_FUNCS = [("markdown_it.rules_inline.balance_pairs", "processDelimiters", "
                ("markdown_it.rules_inline.strikethrough", "_postProcess", "contracts.emph")]
 INLINE_RULE_FUNCS = [("markdown_it.rules_inline.emphasis", "tokenize", "emphasis", "contracts.inline2"),
                      ("markdown_it.rules_inline.strikethrough", "tokenize", "strikethrough", "contracts.inline2"),
-                     ("markdown_it.rules_inline.newline", "newline", "newline", "contracts.inline2")]
+                     ("markdown_it.rules_inline.newline", "newline", "newline", "contracts.inline2"),
+                     ("markdown_it.rules_inline.text", "text", "text", "contracts.inline2"),
+                     ("markdown_it.rules_inline.backticks", "backtick", "backticks", "contracts.inline2"),
+                     ("markdown_it.rules_inline.escape", "escape", "escape", "contracts.inline"),
+                     ("markdown_it.rules_inline.link", "link", "link", "contracts.linkc"),
+                     ("markdown_it.rules_inline.image", "image", "image", "contracts.linkc")]
 
 
 def delim_contracts(state, cfg, doc):
